@@ -3,15 +3,19 @@
 of /repo, and is asked to find genuine violations in the library as it is (no seeding), with a reproducer for each.
 What they report is a hypothesis: nothing counts until a check in /verif reproduces it (see DESIGN.md section 13).
 Writes /tmp/seedprompth_<k>.txt, creates /tmp/seedh_<k> (worktree) and /tmp/seedouth_<k>."""
-import json, os, subprocess
+import json, os, subprocess, sys
+rnd = sys.argv[1] if len(sys.argv) > 1 else 'h'
 props = {json.loads(l)['id']: json.loads(l) for l in open('/verif/properties.jsonl')}
 groups = {'H1': ['C04'], 'H2': ['C05', 'C08'], 'H3': ['C07'], 'H4': ['C09'], 'H5': ['C11', 'C12'], 'H6': ['C13', 'C06'],
           'H7': ['C14'], 'H8': ['C01', 'C02'], 'H9': ['C19', 'C15', 'C20'], 'H10': ['C10']}
+if rnd == 'j':   # second review round (third day), other groupings
+    groups = {'J1': ['C03'], 'J2': ['C12', 'C08'], 'J3': ['C14'], 'J4': ['C13', 'C06'], 'J5': ['C10'], 'J6': ['C09', 'C04'],
+              'J7': ['C01', 'C02'], 'J8': ['C19', 'C15'], 'J9': ['C05', 'C07'], 'J10': ['C11', 'C20']}
 TEMPLATE = open(os.path.join(os.path.dirname(__file__), 'huntprompt.txt')).read()
 for k, ids in groups.items():
-    wt, out = f"/tmp/seedh_{k}", f"/tmp/seedouth_{k}"
+    wt, out = f"/tmp/seed{rnd}_{k}", f"/tmp/seedout{rnd}_{k}"
     ptxt = "\n\n".join(f"PROPERTY {i}: {props[i]['title']}\n{props[i]['statement']}\nIt must hold: {props[i]['quantifier']['text']}\nRelevant source files: {', '.join(props[i]['anchors']['files'])}" for i in ids)
-    open(f"/tmp/seedprompth_{k}.txt", "w").write(TEMPLATE.replace("{wt}", wt).replace("{out}", out).replace("{ptxt}", ptxt))
+    open(f"/tmp/seedprompt{rnd}_{k}.txt", "w").write(TEMPLATE.replace("{wt}", wt).replace("{out}", out).replace("{ptxt}", ptxt))
     if not os.path.isdir(wt): subprocess.check_call(['git', '-C', '/repo', 'worktree', 'add', '-q', wt, 'HEAD'])
     os.makedirs(out, exist_ok=True)
 print(len(groups), "prompts")
